@@ -8,11 +8,11 @@ from props import c12_util as U
 
 PROP = "C12"
 LEVEL = "proof"
-GEN_UNITS = ["GenHandles", "GenFgSetup", "GenKernels"]
-COQ_TARGETS = ["Props/C12.vo", "Model/C12Harness.vo", "Proofs/C12Mttkrps.vo", "Proofs/C12Setup.vo", "Proofs/C12GenTie.vo", "Proofs/C12Reshape.vo", "Proofs/C12KrTie.vo", "Model/Harness.vo"]
+GEN_UNITS = ["GenHandles", "GenFgSetup", "GenKernels", "GenKernels3"]
+COQ_TARGETS = ["Props/C12.vo", "Model/C12Harness.vo", "Proofs/C12Mttkrps.vo", "Proofs/C12Setup.vo", "Proofs/C12GenTie.vo", "Proofs/C12Reshape.vo", "Proofs/C12KrTie.vo", "Proofs/C12GenMttv.vo", "Proofs/C12GenMttvPy.vo", "Proofs/C12EvalBytes.vo", "Model/Harness.vo"]
 THEOREM_FILES = ["Props/C12.v"]
 COQ_IMPORTS = ("From Coq Require Import List ZArith Bool QArith Qcanon.\n"
-               "From PV Require Import Base.Index Np.Array Model.Sparse Model.Repr Model.Harness Model.C12Gcp Model.C12Harness Proofs.C12Mttkrps Proofs.C12Reshape.\n"
+               "From PV Require Import Base.Index Np.Array Model.Sparse Model.Repr Model.Harness Model.C12Gcp Model.C12Harness Proofs.C12Mttkrps Proofs.C12Reshape Proofs.C12GenMttv Proofs.C12GenMttvPy Proofs.C12EvalBytes.\nFrom PV Require Np.NpZ.\n"
                "Set Warnings \"-ambiguous-paths\".\nFrom PV Require Import Proofs.C12Setup.\n")
 RULE = ("N-way shapes (N = 2..4, sizes 1..4, singleton modes, <= 48 cells) plus skewed 4-way shapes on both sides of min_split "
         "((6,2,2,3), (2,2,3,8), (4,1,2,2), (2,2,2,5)) and 5-way shapes, ranks 1..3, integer factors / data / masks, "
@@ -38,15 +38,46 @@ EXPLANATION = ("T1 theorems are stated over Gen/GenHandles.v, regenerated from p
                "setup = fg_setup.setup over all ten objectives against the table of Proofs/C12Setup.v.")
 CORRESPONDENCE_ONLY = ["fg_setup.setup: the executable acceptance check on concrete data (value classes) is a hand model tied by correspondence; "
                        "the table itself (handles, bound, parameter, which valid_* flag) is proved equal to the generated Gen/GenFgSetup.v",
-                       "fg_est.estimate(lambda_check=True): that ktensor.normalize(0) IS a column rescaling whose factors multiply to the weights "
-                       "(norms computed by the harness; normalize itself is not the subject of C12); everything downstream of that fact is proved "
-                       "for every such rescaling (C12_lambda_values / _estimate / _exact / _mttkrp_scale)",
-                       "tensor.mttkrps / mttv_left / mttv_mid: the byte-level model mttkrps_b is a hand transliteration (not translator-generated), "
-                       "tied by correspondence at min_split; its Khatri-Rao row lists are proved to be what the generated khatrirao returns"]
+                       "fg_est.estimate(lambda_check=True): that ktensor.normalize(0) divides every column by its norm and absorbs weight * product of "
+                       "norms into mode 0 is read off the source (not generated: square root); that THIS rescaling multiplies to the weights is proved for "
+                       "nonzero norms (C12_lambda_normalize0), zero-norm columns and the norms themselves are correspondence (computed by the harness); "
+                       "everything downstream is proved for every such rescaling (C12_lambda_values / _estimate / _exact / _mttkrp_scale)",
+                       "tensor.mttkrps: mttv_left / mttv_mid / khatrirao / min_split are the translator-GENERATED functions (C12_mttv_left_generated, "
+                       "C12_mttv_mid_generated, C12_khatrirao_generated, C12_min_split_generated, C12_mttkrps_generated); what stays a hand transliteration "
+                       "tied by correspondence (op mttkrps evaluates mttkrps_g at min_split against pyttb) is the BODY of tensor.mttkrps itself: the two "
+                       "initial reshape(data, ...).dot(K) contractions (init_left / init_right) and the two `for` sweeps (sweep_g)",
+                       "fg.evaluate: the byte-level form (flat F-order lists of data / model.full() / weights, position-wise Y *= weights, flat sum, "
+                       "byte-level mttkrps) is PROVED equal to eval_F / eval_G (C12_evaluate_bytes_F / _G; C12_objective itself only unfolds eval_F); what is "
+                       "correspondence: that numpy pairs entries of equal subscript whatever the memory layouts of data / weights / handle results "
+                       "(exercised with C / F / strided arrays), and that model.full() is the F-order list of the Kruskal denotation (ktensor.full: C01/C08)",
+                       "fg_est.estimate / estimate_helper: est_F / est_G are hand models on subscript rows (exact integer correspondence, every layout of "
+                       "the subscript array); theorems about them: C12_leave_one_out, C12_estimate_exact, C12_estimate_gradient, C12_lambda_*"]
 ASSUMPTIONS = ["models have at least two modes (fg.evaluate and fg_est.estimate raise on 1-way models)",
                "real functions ln/exp/PI are the mathematical ones; EPS is the exact rational 1/10^10; IEEE rounding not modelled"]
 
 NFID = 4
+
+
+def _finding_open(fid):
+    """status of one of C12's own findings (findings.d/C12.jsonl): decides which single behaviour op evaluate_struct demands"""
+    import json
+    import os
+    fn = os.path.join(os.path.dirname(os.path.abspath(__file__)), "..", "..", "findings.d", "C12.jsonl")
+    try:
+        for line in open(fn):
+            if line.strip():
+                j = json.loads(line)
+                if j.get("finding_id") == fid:
+                    return j.get("status", "open") == "open"
+    except OSError:
+        pass
+    return False
+
+
+# while C12-W1 is open, op evaluate_struct pins what fg.evaluate does on models with component weights (objective + "all modes at once =
+# the per-mode MTTKRPs of the derivative array", no weights); once the finding is flipped to fixed it demands the exact partial
+# derivatives like op evaluate (ONE accepted behaviour at any time)
+W1_OPEN = _finding_open("C12-W1")
 
 
 def _rand_factors(rng, shape, R, lo=-2, hi=2):
@@ -151,6 +182,10 @@ def gen_cases(rng, tier):
                 cases.append(Case("estimate", {"shape": list(shp), "R": R, "factors": fac, "lam": [1] * R, "subs": subs,
                                                "xs": [rng.randint(-3, 4) for _ in range(ns)], "ws": [rng.randint(-1, 3) for _ in range(ns)],
                                                "crng": crng, "fid": rng.randrange(NFID), "lay": _lay(rng)}, ns > 0))
+    # former C12-W2 witness (repaired in /repo 3455138): all-ones 2x3 rank-2 model, EMPTY sample set, gradient requested -> zero matrices
+    for fid in range(NFID):
+        cases.append(Case("estimate", {"shape": [2, 3], "R": 2, "factors": [[[1, 1], [1, 1]], [[1, 1], [1, 1], [1, 1]]], "lam": [1, 1],
+                                       "subs": [], "xs": [], "ws": [], "crng": None, "fid": fid, "lay": dict(_DLAY)}, False))
     # fg_est.estimate and the model's component weights: all-ones / mixed / all-non-unit under both lambda_check settings,
     # on the full subscript set with unit sample weights (compared with the exact evaluation of the same model) and on samples
     lam_shapes = [(2, 3), (3, 2, 2), (2, 2, 3), (4, 2), (2, 2, 2, 2), (3, 1, 2)]
@@ -363,7 +398,11 @@ def coq_check(c, o):
                 f"mats_eqb (zmttkrps {T} {As} {gnat(a['R'])}) {_gmats(o['one'])} && "
                 f"Nat.eqb (min_split {gnlist(shp)}) {gnat(o['split'])} && "
                 f"mats_eqb (mttkrps_py Z 0%Z 1%Z Z.add Z.mul {gnlist(shp)} (den_dense 0%Z {T}) {As} {gnat(a['R'])}) {_gmats(o['G'])} && "
-                f"mats_eqb (mttkrps_b Z 0%Z Z.add Z.mul {gzlist(a['data'])} {As} (min_split {gnlist(shp)})) {_gmats(o['G'])}")
+                f"mats_eqb (mttkrps_b Z 0%Z Z.add Z.mul {gzlist(a['data'])} {As} (min_split {gnlist(shp)})) {_gmats(o['G'])} && "
+                # ... and the body of tensor.mttkrps over the GENERATED mttv_left / mttv_mid / khatrirao (Proofs/C12GenMttv.v)
+                f"zmttkrps_g_ok {gzlist(a['data'])} {As} (min_split {gnlist(shp)}) {_gmats(o['G'])} && "
+                # ... with the split index from the GENERATED min_split as well (Proofs/C12GenMttvPy.v)
+                f"match mttkrps_gen {gnlist(shp)} {gzlist(a['data'])} {As} with NpZ.Ok Vs => mats_eqb Vs {_gmats(o['G'])} | NpZ.Err => false end")
     fid = gnat(a["fid"])
     if c.op in ("evaluate", "evaluate_struct"):
         K = tgen.gktensor(a["lam"], a["factors"])
@@ -371,9 +410,17 @@ def coq_check(c, o):
         w = "None" if a["w"] is None else f"(Some {tgen.gdense(shp, a['w'])})"
         # evaluate: the matrices must be the exact partial derivatives (weights[r] * MTTKRP column r, C12_gradient_weighted);
         # evaluate_struct: they must be the per-mode MTTKRPs of the element-wise derivative array
-        gm = "zeval_Gw" if c.op == "evaluate" else "zeval_G"
+        unweighted = c.op == "evaluate_struct" and W1_OPEN
+        gm = "zeval_G" if unweighted else "zeval_Gw"
+        # ... and the byte-level form of fg.evaluate (flat F-order lists, position-wise weighting, flat sum, byte-level mttkrps at
+        # min_split; Proofs/C12EvalBytes.v) — its matrices are the unweighted MTTKRPs, so they are compared where those are what is
+        # demanded (evaluate_struct, and evaluate on models whose component weights are all 1)
+        byt = f"Z.eqb (evaluate_F_b Z 0%Z 1%Z Z.add Z.mul (zf {fid}) {K} {X} {w}) {gz(o['F'])}"
+        if unweighted or all(x == 1 for x in a["lam"]):
+            byt += (f" && mats_eqb (evaluate_G_b Z 0%Z 1%Z Z.add Z.mul (zg {fid}) {K} {X} {w} (min_split {gnlist(shp)})) "
+                    f"{_gmats(o['G'])}")
         return (f"Z.eqb (zeval_F {fid} {K} {X} {w}) {gz(o['F'])} && mats_eqb ({gm} {fid} {K} {X} {w}) {_gmats(o['G'])} && "
-                f"Z.eqb {gz(o['F1'])} {gz(o['F'])} && mats_eqb {_gmats(o['G1'])} {_gmats(o['G'])}")
+                f"Z.eqb {gz(o['F1'])} {gz(o['F'])} && mats_eqb {_gmats(o['G1'])} {_gmats(o['G'])} && {byt}")
     if c.op == "estimate":
         crng = gnlist(a["crng"] or [])
         args = f"{As} {gnat(a['R'])} {gnmat(a['subs'])} {gzlist(a['xs'])} {gzlist(a['ws'])} {crng}"
@@ -404,7 +451,8 @@ def oracle(c, o):
     for x, y in (("F1", "F"), ("G1", "G")):
         if c.op in ("evaluate", "evaluate_struct", "estimate") and o[x] != o[y]:
             return f"requesting only one of (objective, gradients) returns a different {y} than requesting both"
-    return U.oracle_tensor(c.op, a, o)
+    # evaluate_struct demands the unweighted MTTKRPs only while C12-W1 is open (see W1_OPEN), afterwards the exact partial derivatives
+    return U.oracle_tensor("evaluate" if c.op == "evaluate_struct" and not W1_OPEN else c.op, a, o)
 
 
 # ----------------------------------------------------------------------------------------- findings
@@ -425,19 +473,6 @@ def _w_w1():
     return None if G[0][0, 0] == 16 else f"fg.evaluate with model weights [2]: dF/dA_0[0,0] returned {G[0][0, 0]}, the partial derivative is 16"
 
 
-def _w_w2():
-    import numpy as np
-    import pyttb as ttb
-    from pyttb.gcp import fg_est
-    K = ttb.ktensor([np.ones((2, 2)), np.ones((3, 2))], np.ones(2))
-    try:
-        G = fg_est.estimate(K, np.zeros((0, 2), dtype=int), np.zeros(0), np.zeros(0), None, lambda d, m: 2 * (m - d), False, None)
-    except Exception as ex:
-        return f"fg_est.estimate on an empty sample set with a gradient handle raises {type(ex).__name__}: {ex} (the objective alone returns 0.0)"
-    ok = len(G) == 2 and G[0].shape == (2, 2) and G[1].shape == (3, 2) and not G[0].any() and not G[1].any()
-    return None if ok else f"fg_est.estimate on an empty sample set returned gradients {G}, expected zero matrices"
-
-
 def _t_w1(c):
     """evaluate on a model with component weights where some returned entry with weight != 1 is nonzero (pure-Python evaluation)"""
     a = c.args
@@ -447,6 +482,7 @@ def _t_w1(c):
     return any(a["lam"][r] != 1 and v != 0 for M in G for row in M for r, v in enumerate(row))
 
 
-TRIGGERS = {"never": lambda c: False, "weighted_gradient": _t_w1,
-            "empty_sample": lambda c: c.op == "estimate" and len(c.args["subs"]) == 0}
-WITNESSES = {"A-34": _w_a34, "C12-W1": _w_w1, "C12-W2": _w_w2}
+# C12-W2 (estimate on an empty sample set with a gradient handle raised IndexError) is repaired in /repo 3455138: no trigger, no
+# witness function any more — the witness input is an ordinary regression case of op estimate (gen_cases, "former C12-W2 witness").
+TRIGGERS = {"never": lambda c: False, "weighted_gradient": _t_w1}
+WITNESSES = {"A-34": _w_a34, "C12-W1": _w_w1}
